@@ -121,6 +121,28 @@ def model_check(tmp, module, cfg, expect="ok", workers=None, timeout=3000, heap=
     return r
 
 
+VEC_RE = re.compile(r'^<<"VEC", (".*")>>$')
+
+
+def tlc_vectors(tmp, module, cfgname, cfgtext, outpath, workers=1, timeout=1800, extra=(), append=False):
+    """Run a generator configuration; collect the JSON vectors it prints."""
+    d = spec_dir(tmp, "gen_" + cfgname)
+    with open(os.path.join(d, cfgname + ".cfg"), "w") as f:
+        f.write(cfgtext)
+    r = run_tlc(d, module, cfgname, workers=workers, timeout=timeout, extra=extra)
+    n = 0
+    with open(outpath, "a" if append else "w") as f:
+        for line in r["out"].splitlines():
+            m = VEC_RE.match(line)
+            if m:
+                f.write(json.loads(m.group(1)) + "\n")
+                n += 1
+    if n == 0:
+        raise Infra("generator %s/%s printed no vectors:\n%s" % (module, cfgname, r["out"][-3000:]))
+    r["vectors"] = n
+    return r
+
+
 # ----------------------------------------------------------------------------
 # known findings
 def load_known():
